@@ -611,10 +611,10 @@ fn vm_case_inner(out: &mut Out, c: VmCase, class: &str) {
 fn padding_witnesses(out: &mut Out) {
     let id = [7u8; 32];
     let value: Vec<u8> = (1..=16).collect();
-    let setup = vec![Setup::GrowStack(64), Setup::Write(0, id.to_vec())];
+    let setup = vec![Setup::GrowStack(640), Setup::Write(0, id.to_vec())];
     for (mode, c) in [(0u8, 1u64), (1, 1), (0, 9), (1, 9), (0, 8), (1, 16), (0, 17)] {
         let case = VmCase {
-            setup: setup.clone(), ssp: 64, sp: 64, hp: MEM, fp: 2000, max_size: 1024,
+            setup: setup.clone(), ssp: 640, sp: 640, hp: MEM, fp: 0, max_size: 1024,
             contracts: vec![(id, value.clone())], blobs: vec![(id, value.clone())],
             instr: Instr::Ldc { a: 0, b: 0, c, mode },
         };
